@@ -37,4 +37,5 @@ func main() {
 	genPosImpl(info)
 	genWalkImpl(info)
 	genPrintProg(info)
+	genGlobals()
 }
